@@ -10,34 +10,43 @@ HERE = os.path.dirname(os.path.abspath(__file__))
 VERIF = os.path.dirname(HERE)
 
 
-def main():
-    ids = sorted(d for d in os.listdir(os.path.join(VERIF, "seeded")) if os.path.isdir(os.path.join(VERIF, "seeded", d)))
-    sel = sys.argv[1:]
+def one(sid):
+    d = os.path.join(VERIF, "seeded", sid)
+    meta_p = os.path.join(d, "meta.json")
+    meta = json.load(open(meta_p)) if os.path.exists(meta_p) else {"property": sid.split("-")[0]}
+    prop = meta["property"]
+    r = subprocess.run([sys.executable, os.path.join(VERIF, "tools", "try_patch.py"), os.path.join(d, "patch.diff"), prop],
+                       stdout=subprocess.PIPE, stderr=subprocess.STDOUT, text=True)
+    fired = [l.strip() for l in r.stdout.splitlines() if l.startswith("    ")]
+    status = "caught" if r.returncode == 0 else ("MISSED" if r.returncode == 1 else "PATCH-BROKEN")
     bad = 0
-    for sid in ids:
-        if sel and not any(sid.startswith(s) for s in sel):
-            continue
-        d = os.path.join(VERIF, "seeded", sid)
-        meta_p = os.path.join(d, "meta.json")
-        meta = json.load(open(meta_p)) if os.path.exists(meta_p) else {"property": sid.split("-")[0]}
-        prop = meta["property"]
-        r = subprocess.run([sys.executable, os.path.join(VERIF, "tools", "try_patch.py"), os.path.join(d, "patch.diff"), prop],
-                           stdout=subprocess.PIPE, stderr=subprocess.STDOUT, text=True)
-        fired = [l.strip() for l in r.stdout.splitlines() if l.startswith("    ")]
-        status = "caught" if r.returncode == 0 else ("MISSED" if r.returncode == 1 else "PATCH-BROKEN")
-        if meta.get("kind") == "neutral":
-            # a change that stopped manifesting once a latent defect was repaired: behaviour-preserving today, must stay silent
-            status = {"caught": "FALSE-ALARM", "MISSED": "silent"}.get(status, status)
-            if status != "silent":
-                bad += 1
-        elif status != "caught":
-            bad += 1
-        print("%-8s %-8s %s" % (status, sid, (fired[0][:150] if fired else r.stdout.strip()[:150])))
-        meta["caught_by_check"] = prop if status in ("caught", "FALSE-ALARM") else None
-        meta["reports"] = fired[:4]
-        rl = [l for l in r.stdout.splitlines() if l.startswith("  rules: ")]
-        meta["caught_by_rules"] = rl[0][9:].split() if rl else []
-        json.dump(meta, open(meta_p, "w"), indent=1)
+    if meta.get("kind") == "neutral":
+        # a change that stopped manifesting once a latent defect was repaired: behaviour-preserving today, must stay silent
+        status = {"caught": "FALSE-ALARM", "MISSED": "silent"}.get(status, status)
+        if status != "silent":
+            bad = 1
+    elif status != "caught":
+        bad = 1
+    meta["caught_by_check"] = prop if status in ("caught", "FALSE-ALARM") else None
+    meta["reports"] = fired[:4]
+    rl = [l for l in r.stdout.splitlines() if l.startswith("  rules: ")]
+    meta["caught_by_rules"] = rl[0][9:].split() if rl else []
+    json.dump(meta, open(meta_p, "w"), indent=1)
+    return sid, status, bad, (fired[0][:150] if fired else r.stdout.strip()[:150])
+
+
+def main():
+    import concurrent.futures
+    ids = sorted(d for d in os.listdir(os.path.join(VERIF, "seeded")) if os.path.isdir(os.path.join(VERIF, "seeded", d)))
+    sel = [a for a in sys.argv[1:] if not a.startswith("-j")]
+    j = [int(a[2:]) for a in sys.argv[1:] if a.startswith("-j")]
+    ids = [sid for sid in ids if not sel or any(sid.startswith(s) for s in sel)]
+    bad = 0
+    with concurrent.futures.ThreadPoolExecutor(max_workers=(j[0] if j else 6)) as ex:
+        for sid, status, b, first in ex.map(one, ids):
+            bad += b
+            print("%-8s %-8s %s" % (status, sid, first), flush=True)
+    print("%d seeds, %d not as expected" % (len(ids), bad))
     return 1 if bad else 0
 
 
